@@ -5,7 +5,7 @@ usage: ./check selftest-determinism [--runs N] (VERIF_PROPS=C01,C06 restricts th
 
 Every property is run three times in fresh interpreters:
     A: PYTHONHASHSEED=0,   default worker count
-    B: PYTHONHASHSEED=0,   3 workers
+    B: PYTHONHASHSEED=1,   3 workers (0 and 777 happen to order two voluptuous default markers alike; 1 does not)
     C: PYTHONHASHSEED=777, default worker count
 and the digest maps (one SHA-256 per run over the full event log, outcomes and virtual time) are compared.
 A mismatch is a harness error (exit 2), never a VIOLATION.
@@ -43,7 +43,7 @@ def main(args):
             n = max(4, int(RUNS.get(pid, 50) * scale))
             files = []
             rcs = []
-            for tag, hs, jobs in (("A", 0, 0), ("B", 0, 3), ("C", 777, 0)):
+            for tag, hs, jobs in (("A", 0, 0), ("B", 1, 3), ("C", 777, 0)):
                 f = os.path.join(d, f"{pid}-{tag}.json")
                 rc, out = one(pid, n, hs, jobs, f)
                 rcs.append(rc)
@@ -63,7 +63,7 @@ def main(args):
                 bad += 1
                 print(f"{pid}: NONDETERMINISTIC {len(diff)}/{len(keys)} runs differ (exit codes {rcs}); first: {sorted(diff)[:2]}")
             else:
-                print(f"{pid}: {len(keys)} runs identical across fresh interpreters, PYTHONHASHSEED 0/777 and worker counts (exit {rcs[0]})")
+                print(f"{pid}: {len(keys)} runs identical across fresh interpreters, PYTHONHASHSEED 0/1/777 and worker counts (exit {rcs[0]})")
     if bad:
         print(f"HARNESS-ERROR: determinism self-test failed for {bad} propert{'y' if bad == 1 else 'ies'}")
         return 2
